@@ -145,3 +145,8 @@ def _reaches_avoiding(body, a, b, avoid):
             return True
         st.extend(body.succs(x))
     return False
+
+
+def run_thorough(ck, F, E):
+    import clippy_xref
+    clippy_xref.cross_reference(ck, F, "C01")
